@@ -734,12 +734,15 @@ class FloatDomain:
     want_q = True
 
     def qr_r(self, M):
-        R = np.linalg.qr(M.astype(float), mode="r")
+        # the runtime's own factorisation, so that row-sign conventions agree with the real run being validated against
+        import jax.numpy as jnp
+        R = np.asarray(jnp.linalg.qr(jnp.asarray(M.astype(float)), mode="r"))
         return R.astype(object)
 
     def qr_q(self, M):
-        Q, _ = np.linalg.qr(M.astype(float), mode="reduced")
-        return Q.astype(object)
+        import jax.numpy as jnp
+        Q, _ = jnp.linalg.qr(jnp.asarray(M.astype(float)), mode="reduced")
+        return np.asarray(Q).astype(object)
 
     def tri_solve(self, A, B, *, left_side, lower, transpose_a, unit_diagonal):
         import scipy.linalg as sl
